@@ -155,10 +155,18 @@ def shape_request(rng, o, relative, scale=20.0, kinds=None, grid=None):
         meta.update(target_abs=t, with_z=with_z)
         if kind == "thread":
             pitch = abs(dz) / rng.choice([0.55, 1.3, 2.4, 3.5, 6.5])   # never an integer ratio: floor() is discontinuous there
+            # the documented defaults (pitch=1, turns=1) are part of the API: sometimes rely on them
+            frac = abs(dz) - math.floor(abs(dz))
+            if rng.random() < 0.15 and abs(dz) < 40 and 0.1 < frac < 0.9:
+                meta.update(pitch=1.0, default_argument=True)
+                return "trace.thread", (_tgt(o, t, relative, True),), {}, meta
             meta.update(pitch=pitch)
             return "trace.thread", (_tgt(o, t, relative, True), pitch), {}, meta
         turns = rng.choice([1, 2, 3])
         meta.update(turns=turns)
+        if turns == 1 and rng.random() < 0.5:
+            meta.update(default_argument=True)
+            return "trace.spiral", (_tgt(o, t, relative, with_z),), {}, meta
         return "trace.spiral", (_tgt(o, t, relative, with_z), turns), {}, meta
 
     if kind in ("spline", "polyline"):
